@@ -97,10 +97,10 @@ def check(case, out):
         try:
             U, S, V = svd(A, k, "LM", *([alg] if alg is not None else []))
             Ud, Sd, Vd = np.asarray(U.to_dense()), np.asarray(S.to_dense()), np.asarray(V.to_dense())
-        except AssertionError as e:
-            out.refusals += 1
-            return
         except Exception as e:
+            if oracle.is_contract_refusal(e):
+                out.refusals += 1
+                return
             out.fail("call", site, oracle.exc_man(e), e)
             return
         if not all(np.all(np.isfinite(x)) for x in (Ud, Sd, Vd)):
@@ -145,10 +145,10 @@ def check(case, out):
     b = rng.standard_normal(shape) + (1j * rng.standard_normal(shape) if np.iscomplexobj(M) else 0)
     try:
         x = np.asarray(L.pinv(A, *([alg] if alg is not None else [])) @ b)
-    except AssertionError as e:
-        out.refusals += 1
-        return
     except Exception as e:
+        if oracle.is_contract_refusal(e):
+            out.refusals += 1
+            return
         out.fail("call", site, oracle.exc_man(e), e)
         return
     xref = np.linalg.pinv(M) @ b
